@@ -135,6 +135,7 @@ def run(ck):
         facts = tr.analyse()
     except Exception as ex:  # anchors not found: no trace validation possible -> recorded by gen_results already
         ck.corr_problem("transport anchors not found; trace validation impossible", repr(ex))
+        fallback_search(ck, thorough)
         ck.cov["trusted_base"] = TRUSTED
         return
     ck.notes["facts"] = {k: facts[k] for k in ("atomic_create", "locked_ops", "table", "path")}
@@ -159,6 +160,8 @@ def run(ck):
             note(sig, what + " [corpus %s]" % fname, {"scenario": obj["scenario"], "schedule": obj["schedule"],
                                                        "points": obj.get("points", "events")}, (0, 0))
     ck.notes["corpus"] = {"entries": len(corpus_entries()), "oracle_hits": corpus_hits}
+
+    sequential_oracles(ck)
 
     # ---------- enumerate schedules of the real code
     plan = THOROUGH if thorough else QUICK
@@ -261,7 +264,51 @@ def run(ck):
     ck.cov["trusted_base"] = TRUSTED
 
 
+def fallback_search(ck, thorough):
+    """The transport was reshaped and the anchored analysis failed: look for a concrete failing input with
+    (a) sequential operation sequences and (b) statement-level schedule enumeration with generic switch
+    points (every `with` body is a critical section); only the direct oracle applies."""
+    res, err = run_job({"sequential": True}, 120)
+    n = 0
+    if res is None:
+        ck.corr_problem("sequential oracle run did not complete", str(err)[-800:])
+    else:
+        for sig, what in res["oracle"]:
+            ck.fail_input(sig, what, {"sequential": True})
+    small = [scn("fallback: two first publishers", [], P("c"), P("c")),
+             scn("fallback: publisher vs exact subscriber on a new channel", [], P("c"), S("c")),
+             scn("fallback: publisher vs star subscriber", [], P("c", "c"), S("*")),
+             scn("fallback: two publishers one subscriber", [], P("a", "a"), P("a"), S("a"))]
+    jobs = [{"scenario": sc, "bound": 2 if thorough else 1, "points": "lines", "budget_s": 120 if thorough else 40, "stall_s": 2.0} for sc in small]
+    with ThreadPoolExecutor(max_workers=len(jobs)) as ex:
+        outs = list(ex.map(lambda j: run_job(j, j["budget_s"] + 60), jobs))
+    for job, (r, e) in zip(jobs, outs):
+        if r is None:
+            continue
+        for x in r["executions"]:
+            n += 1
+            for sig, what in x.get("oracle", []):
+                ck.fail_input(sig, what + " | scenario: %s (generic statement-level points)" % job["scenario"]["name"],
+                              {"scenario": job["scenario"], "schedule": x["schedule"], "points": "lines"})
+    ck.cov["evaluations"] = n
+    ck.notes["fallback"] = "anchored analysis failed; %d schedules explored with generic points + sequential sequences" % n
+
+
+def sequential_oracles(ck):
+    res, err = run_job({"sequential": True}, 120)
+    if res is None:
+        ck.corr_problem("sequential oracle run did not complete", str(err)[-800:])
+        return
+    for sig, what in res["oracle"]:
+        ck.fail_input(sig, what, {"sequential": True})
+    ck.notes["sequential_sequences"] = 5
+
+
 def replay(obj):
+    if obj["replay"].get("sequential"):
+        res, err = run_job({"sequential": True}, 120)
+        print(json.dumps(res["oracle"] if res else err, indent=1))
+        return 0
     r = obj["replay"]
     res, err = run_job({"scenario": r["scenario"], "schedule": r["schedule"], "points": r.get("points", "events")}, 120)
     if res is None:
